@@ -282,11 +282,14 @@ def run_author_comparer(ctx):
     for i in range(ctx.n(320, 4000)):
         half = {'grade_decimal': 0.5, 'msg': 'half right'}
 
-        def comp(params, student, utils, half=half):
+        as_string = rng.random() < 0.3
+        half_word = rng.choice(['partial', 'Partial', 'PARTIAL'])
+
+        def comp(params, student, utils, half=half, as_string=as_string, half_word=half_word):
             if utils.within_tolerance(params[0], student):
                 return True
             if utils.within_tolerance(2 * params[0], student):
-                return half          # the same dictionary object every time
+                return half_word if as_string else half          # the word 'partial' (half credit) or the same dictionary object every time
             return False
         cls = rng.choice([M.FormulaGrader, M.NumericalGrader, M.MatrixGrader])
         numeric = cls is M.NumericalGrader
@@ -305,7 +308,8 @@ def run_author_comparer(ctx):
                 ctx.ev()
                 ctx.count('full_grader_calls')
                 ctx.count('author_comparer_calls')
-                wit = {'grader': cls.__name__, 'alternatives': [(a['expect']['comparer_params'], a['grade_decimal']) for a in alts],
+                wit = {'grader': cls.__name__, 'comparer_returns': half_word if as_string else 'a reused dictionary',
+                       'alternatives': [(a['expect']['comparer_params'], a['grade_decimal']) for a in alts],
                        'input': inp, 'call_number': rep, 'outcome': out.brief()}
                 ctx.nontrivial(['author_comparer', cls.__name__, inp, c1, c2, rep])
                 if not out.returned:
